@@ -20,11 +20,16 @@ Definition vkind_eqb (a b : vkind) : bool :=
   | _, _ => false
   end.
 
+(* numpy array of a classical array variable: nested lists; a leaf is None until it is assigned *)
+Inductive arr :=
+| ALeaf (v : option pyval)
+| ANode (l : list arr).
+
 Inductive vvalue :=
 | VVNone                     (* Python None: uninitialised *)
 | VVScalar (v : pyval)
 | VVBits (n : Z)             (* numpy array of a bit register (contents not tracked) *)
-| VVArray.                   (* numpy array (not modelled) *)
+| VVArr (a : arr).           (* numpy array of an array variable *)
 
 Record var := mkVar {
   v_kind : vkind;
